@@ -11,13 +11,15 @@ cd $W || exit 2
 [ -f SEEDED/patchA.diff ] || { echo "no SEEDED/patchA.diff in $W"; exit 2; }
 H=/tmp/wt/hold.R$R$ID; rm -rf $H; mkdir -p $H; cp -r SEEDED $H/
 git checkout -q -- . ; rm -rf SEEDED seeded_demo_test.go
-cp $H/SEEDED/seeded_demo_test.go .
-go test -vet=off -count=1 -run 'TestSeededDemo' . > $H/demo_clean.log 2>&1; CLEAN=$?
+DD=${DEMO_DIR:-.}   # package directory of the demonstration (internal/ztest for C20)
+rm -f $DD/seeded_demo_test.go
+cp $H/SEEDED/seeded_demo_test.go $DD/
+go test -vet=off -count=1 -run 'TestSeededDemo' ./$DD > $H/demo_clean.log 2>&1; CLEAN=$?
 echo "demo on clean tree exit=$CLEAN ($(tail -1 $H/demo_clean.log))"
 for X in A B; do
   x=$(echo $X | tr AB ab)
   git apply $H/SEEDED/patch$X.diff || { echo "patch$X does not apply"; continue; }
-  go test -vet=off -count=1 -run "TestSeededDemo$X\$" . > $H/demo_$X.log 2>&1; DX=$?
+  go test -vet=off -count=1 -run "TestSeededDemo$X\$" ./$DD > $H/demo_$X.log 2>&1; DX=$?
   go test -json -vet=off -count=1 -timeout 20m -skip 'TestSeededDemo' ./... > $H/suite_$X.json 2>/dev/null
   python3 - $H/suite_$X.json <<'PY' > $H/suite_$X.txt
 import json,sys
@@ -31,7 +33,7 @@ print("baseline tests passing with the change: %d/%d %s"%(len(want)-len(bad),len
 PY
   git checkout -q -- .
   echo "patch$X: demo exit=$DX; $(cat $H/suite_$X.txt)"
-  /verif/tools/tryseed.sh $H/SEEDED/patch$X.diff "$@" > $H/checks_$X.txt 2>&1
+  TRYSEED_SCRATCH=${TRYSEED_SCRATCH:-/tmp/ts-$ID} /verif/tools/tryseed.sh $H/SEEDED/patch$X.diff "$@" > $H/checks_$X.txt 2>&1
   sort $H/checks_$X.txt
   D=/verif/seeded/$ID-$R$x; mkdir -p $D
   cp $H/SEEDED/patch$X.diff $D/patch.diff; cp $H/SEEDED/seeded_demo_test.go $D/
